@@ -4,7 +4,7 @@
 // outcome kind (ok / exception / crash) and the returned structure as ndjson.  The verdict
 // is taken by TLC (spec/C19Trace.tla).
 //
-// usage: record_io <mode>     mode: mmfault | binfault | rt | bits | usedvec
+// usage: record_io <mode>     mode: mmfault | binfault | rt | bits | usedvec | mtread
 //   env VERIF_SAN=1 : sanitizer run, only crashing cases and a summary line are printed
 //
 // Every read of a damaged file runs in a forked child (batches; a batch that dies is re-run
@@ -62,6 +62,8 @@ static void make_dir() {
     g_dir = buf.data(); g_main = getpid(); atexit(cleanup_dir);
 }
 static std::string P(const std::string &name) { return g_dir + "/" + name; }
+static std::string g_lane;      // prefix of the scratch files of one lane of the parallel case driver
+static std::string LP(const std::string &name) { return P(g_lane + name); }
 static std::string slurp(const std::string &p) { std::ifstream f(p, std::ios::binary); std::ostringstream s; s << f.rdbuf(); return s.str(); }
 static void spit(const std::string &p, const std::string &d) { std::ofstream f(p, std::ios::binary | std::ios::trunc); f.write(d.data(), d.size()); }
 
@@ -180,7 +182,7 @@ static std::string describe_death(int status, const std::string &errfile) {
 // run f in a child; returns its text, or the crash fragment made by `oncrash(why)`
 static std::string in_child(const std::function<std::string()> &f, const std::function<std::string(const std::string&)> &oncrash, int seconds = 5) {
     int fd[2]; if (pipe(fd)) { perror("pipe"); exit(2); }
-    std::string errfile = P("stderr.txt");
+    std::string errfile = LP("stderr.txt");
     std::cout << std::flush;
     pid_t pid = fork();
     if (pid < 0) { perror("fork"); exit(2); }
@@ -210,17 +212,18 @@ static std::string sub(bool isolate, const std::function<Out()> &f) {
 static long g_cases = 0, g_crashed = 0;
 // Without the sanitizer an out-of-bounds write may corrupt the heap silently, so every case gets
 // its own process; under ASan the first bad access aborts, so cases are batched.
-static void drive(int N, const std::function<std::string(int, bool)> &run) {
+static void drive_slice(int first, int N, const std::function<std::string(int, bool)> &run, std::ostream &out) {
     int batch = g_san ? 64 : 1;
-    int idx = 0;
+    int idx = first;
     while (idx < N) {
         int end = std::min(N, idx + batch);
         int fd[2]; if (pipe(fd)) { perror("pipe"); exit(2); }
-        std::cout << std::flush;
+        out << std::flush; std::cout << std::flush;
         pid_t pid = fork();
+        if (pid < 0) { perror("fork"); exit(2); }
         if (pid == 0) {
             close(fd[0]);
-            int ef = open(P("stderr-batch.txt").c_str(), O_WRONLY | O_CREAT | O_TRUNC, 0600); if (ef >= 0) { dup2(ef, 2); close(ef); }
+            int ef = open(LP("stderr-batch.txt").c_str(), O_WRONLY | O_CREAT | O_TRUNC, 0600); if (ef >= 0) { dup2(ef, 2); close(ef); }
             child_terminate_is_abort();
             for (int j = idx; j < end; ++j) {
                 vr::cpu_alarm(g_san ? 20 : 5);
@@ -234,18 +237,48 @@ static void drive(int N, const std::function<std::string(int, bool)> &run) {
         while ((r = read(fd[0], buf, sizeof buf)) > 0) s.append(buf, r);
         close(fd[0]);
         int status = 0; waitpid(pid, &status, 0);
-        // complete lines = completed cases
+        // complete lines = completed cases (a torn last line belongs to the case that died)
         int done = 0; size_t last = 0;
         for (size_t p = 0; p < s.size(); ++p) if (s[p] == '\n') { ++done; last = p + 1; }
-        if (!g_san) std::cout << s.substr(0, last);
+        if (done > end - idx) { done = end - idx; }
+        if (!g_san) out << s.substr(0, last);
         g_cases += done;
         idx += done;
         if (!(WIFEXITED(status) && WEXITSTATUS(status) == 0) && idx < end) {
             // case idx killed the batch: re-run it with every read isolated
-            std::cout << run(idx, true) << "\n";
+            out << run(idx, true) << "\n";
             ++g_cases; ++g_crashed; ++idx;
         }
-        std::cout << std::flush;
+        out << std::flush;
+    }
+}
+// The cases are independent: VERIF_LANES (default 8) lane processes work on contiguous slices at the same time
+// (one fork-and-wait per case is latency bound on a busy machine), each with its own scratch files and its
+// own output file; the parent prints the lane files one after the other, so that no line is ever torn.
+static void drive(int N, const std::function<std::string(int, bool)> &run) {
+    int L = std::max(1, vr::env_int("VERIF_LANES", 8)); if (N < 4 * L) L = 1;
+    if (L == 1) { drive_slice(0, N, run, std::cout); return; }
+    std::vector<pid_t> pids(L);
+    std::cout << std::flush;
+    for (int l = 0; l < L; ++l) {
+        pid_t pid = fork();
+        if (pid < 0) { perror("fork"); exit(2); }
+        if (pid == 0) {
+            g_lane = "lane" + std::to_string(l) + "-"; g_cases = g_crashed = 0;
+            std::ofstream out(P("lane" + std::to_string(l) + ".out"));
+            drive_slice((int)((long long)N * l / L), (int)((long long)N * (l + 1) / L), run, out);
+            out << "#done " << g_cases << " " << g_crashed << "\n" << std::flush; out.close();
+            _exit(0);
+        }
+        pids[l] = pid;
+    }
+    for (int l = 0; l < L; ++l) {
+        int status = 0; waitpid(pids[l], &status, 0);
+        std::string txt = slurp(P("lane" + std::to_string(l) + ".out"));
+        size_t t = txt.rfind("#done ");
+        bool ok = WIFEXITED(status) && WEXITSTATUS(status) == 0 && t != std::string::npos && (t == 0 || txt[t - 1] == '\n');
+        if (ok) { long a = 0, b = 0; sscanf(txt.c_str() + t, "#done %ld %ld", &a, &b); g_cases += a; g_crashed += b; std::cout << txt.substr(0, t) << std::flush; }
+        else { g_lane = "lane" + std::to_string(l) + "r-"; drive_slice((int)((long long)N * l / L), (int)((long long)N * (l + 1) / L), run, std::cout); g_lane = ""; }   // a lane that died (it runs no library code): redo its slice here
     }
 }
 
@@ -520,7 +553,7 @@ static long mm_first_data(const FileSpec &f) {   // offset of the first line aft
 
 static std::string run_case(const FileSpec &f, const Damage &x, bool isolate) {
     Intern in;
-    std::string path = P("case.dat");
+    std::string path = LP("case.dat");
     std::string dmg = apply_damage(f.data, x);
     spit(path, dmg);
     bool mm = f.fmt[0] == 'm'; bool dense = f.fmt == "mm-dense" || f.fmt == "bin-dense";
@@ -598,7 +631,7 @@ static void fault_sweep(const std::vector<FileSpec> &files, bool mm) {
 static void mode_used_vectors() {
     std::vector<FileSpec> files = mm_files(); for (auto &f : bin_files()) files.push_back(f);
     for (auto &f : files) {
-        std::string path = P("case.dat"); spit(path, f.data);
+        std::string path = LP("case.dat"); spit(path, f.data);
         for (int hist : {2, 50, -1}) for (auto r : ranges_for(f.n)) {
             long rb = (r.first == 0 && r.second == f.n) ? -1 : r.first, re = (r.first == 0 && r.second == f.n) ? -1 : r.second;
             // two children (fresh vectors / used vectors), each with its own intern table: equal value sequences
@@ -612,11 +645,47 @@ static void mode_used_vectors() {
     }
 }
 
+// The readers sort the rows in `#pragma omp parallel for` loops: files whose rows arrive unsorted (coordinate
+// entries in arbitrary order, binary rows stored backwards) are read with several OpenMP threads, repeatedly, and
+// compared with the matrix that was written.  No fork here (threads exist); a crash ends the recorder and is
+// reported by the driver as a crash of the real code.  Run with OMP_NUM_THREADS=4 OMP_WAIT_POLICY=passive.
+static void mode_mtread() {
+    vr::rng g(vr::env_seed() + 777);
+    int threads = std::max(2, vr::env_int("OMP_NUM_THREADS", 4));
+    int reps = vr::thorough() ? 6 : 3;
+    for (int rep = 0; rep < reps; ++rep) {
+        int n = 3000, m = 600;
+        std::vector<std::vector<std::pair<int, double>>> rows(n);
+        struct E { int i, j; double v; }; std::vector<E> ents;
+        for (int i = 0; i < n; ++i) { int w = g.range(6, 40); std::set<int> cs; while ((int)cs.size() < w) cs.insert(g.below(m)); for (int c : cs) { double v = g.coin(0.5) ? (double)g.range(-9, 9) : (g.unit() - 0.5) * std::ldexp(1.0, g.range(-60, 60)); rows[i].push_back({c, v}); ents.push_back({i, c, v}); } }
+        auto A = make_sp<double>(n, m, rows);                       // rows sorted by column: what has to come back
+        for (size_t k = ents.size(); k > 1; --k) std::swap(ents[k - 1], ents[g.below((int)k)]);
+        std::string mtx = P("mt.mtx");
+        { std::ofstream f(mtx); f << "%%MatrixMarket matrix coordinate real general\n" << n << " " << m << " " << ents.size() << "\n"; for (auto &e : ents) f << e.i + 1 << " " << e.j + 1 << " " << fmt_val(e.v) << "\n"; }
+        std::string bin = P("mt.bin");
+        { std::ofstream f(bin, std::ios::binary); size_t nn = n; std::vector<ptrdiff_t> ptr(A.ptr), col; std::vector<double> val;
+          for (int i = 0; i < n; ++i) for (ptrdiff_t p = A.ptr[i + 1]; p-- > A.ptr[i]; ) { col.push_back(A.col[p]); val.push_back(A.val[p]); }    // rows stored backwards
+          io::write(f, nn); io::write(f, ptr); io::write(f, col); io::write(f, val); }
+        for (int fmt = 0; fmt < 2; ++fmt) for (int pass = 0; pass < 3; ++pass) {
+            std::string st = "ok", why; long mism = 0;
+            try {
+                std::vector<ptrdiff_t> ptr, col; std::vector<double> val; size_t rn = 0, rm = m;
+                if (fmt == 0) { io::mm_reader rd(mtx); std::tie(rn, rm) = rd(ptr, col, val); } else io::read_crs(bin, rn, ptr, col, val);
+                if (rn != (size_t)n || rm != (size_t)m || ptr.size() != A.ptr.size() || col.size() != A.col.size() || val.size() != A.val.size()) mism = -1;
+                else { for (size_t i = 0; i < ptr.size(); ++i) mism += ptr[i] != A.ptr[i]; for (size_t i = 0; i < col.size(); ++i) mism += (col[i] != A.col[i]) || memcmp(&val[i], &A.val[i], 8) != 0; }
+            } catch (const std::exception &e) { st = "err"; why = e.what(); }
+            vr::obj o; o.str("k", "mtread").str("fmt", fmt == 0 ? "mm-sparse" : "bin-crs").i("n", n).i("nnz", (long)ents.size()).i("threads", threads).i("rep", rep).i("pass", pass)
+                      .str("st", st).str("why", why.substr(0, 80)).i("mism", mism);
+            vr::emit(o.done()); ++g_cases;
+        }
+    }
+}
+
 // valid files read with the wrong value kind / the wrong container: the reader must throw
 template <class V> static Out any_mm(const std::string &p, bool dense, Intern &in) { return dense ? read_mm_dense<V>(p, -1, -1, in) : read_mm_sparse<ptrdiff_t, V>(p, -1, -1, in); }
 static void wrong_kind(const std::vector<FileSpec> &files) {
     for (auto &f : files) {
-        std::string path = P("case.dat"); spit(path, f.data);
+        std::string path = LP("case.dat"); spit(path, f.data);
         bool fdense = f.fmt == "mm-dense";
         for (int dense = 0; dense < 2; ++dense) for (std::string k : {"real", "complex", "integer"}) {
             if (k == f.kind && dense == (int)fdense) continue;
@@ -776,6 +845,7 @@ int main(int argc, char **argv) {
     else if (mode == "binfault") { auto F = bin_files(); fault_sweep(F, false); }
     else if (mode == "rt") mode_rt();
     else if (mode == "usedvec") mode_used_vectors();
+    else if (mode == "mtread") mode_mtread();
     else if (mode == "bits") mode_bits();
     else { std::cerr << "unknown mode\n"; return 2; }
     vr::obj s; s.str("k", "summary").str("mode", mode).i("cases", g_cases).i("crashed", g_crashed).b("san", g_san); vr::emit(s.done());
